@@ -435,6 +435,16 @@ class Body:
         return names.get(l, "_%d" % l)
 
     def place_path(self, p, deep=True, depth=0, seen=None):
+        pr = p["pr"]
+        # `(a, b) = (x, y)` : a field of a locally built tuple/struct is the operand it was built from
+        if deep and pr and pr[0][0] == "field" and depth < 16:
+            ds = self.whole_defs(p["l"])
+            if len(ds) == 1 and ds[0][0] == "assign" and ds[0][3]["r"]["k"] == "agg" and ds[0][3]["r"].get("ak") in ("tuple", "adt") and not ds[0][3]["r"].get("variant", "").startswith("__"):
+                ops = ds[0][3]["r"]["ops"]
+                idx = pr[0][1]
+                if idx < len(ops) and ops[idx]["c"] in ("copy", "move") and (ds[0][3]["r"].get("ak") == "tuple"):
+                    inner = ops[idx]["p"]
+                    return self.place_path({"l": inner["l"], "pr": list(inner["pr"]) + list(pr[1:]), "s": "", "ty": p.get("ty", "")}, deep, depth + 1, seen)
         base = self.local_path(p["l"], deep, depth, seen)
         for e in p["pr"]:
             k = e[0]
